@@ -17,8 +17,8 @@ pub fn def02() -> PropDef {
     PropDef {
         info: PropInfo {
             id: "C02",
-            rule: "layouts: packet of 0-64 bytes and metadata buffer absent or 8-64 bytes, each placed start- or end-against a PROT_NONE page; 0-3 registered ranges of 1-32 bytes inside a canary-filled arena, some separated by holes of only 1-7 bytes; in a third of the layouts one more registered range covers all the others (extended by 0-3 bytes on either side) and is registered last, first, second, or with the whole order reversed. probes: one access instruction {ldx, st, stx, xadd, ldabs, ldind} x width {1,2,4,8} whose effective address is a region boundary (start or end of packet / metadata / each range / the stack) plus a delta in [-9,+9], or 0, 1, u64::MAX-k, a base+offset sum that wraps past 2^64, or a far address; base value and displacement are split randomly between register and 16-bit offset (imm+src for ldind); a quarter of the probes first perform a narrower access through the same register and offset; a quarter first perform an in-bounds access of the same offset and width and then redefine the base register (lddw, mov, add, stack reload, result of a helper call, ldabs); in a quarter of the layouts the metadata buffer starts 1-7 bytes after the end of the packet. Oracle (computed from the real addresses inside the child): allowed <=> all bytes inside exactly one region (and naturally aligned for xadd); allowed => Ok with the exact loaded value / exactly the stored bytes changed; refused => Err (never a panic or signal) and no byte of packet, metadata, arena or canaries changed. The thorough tier additionally enumerates every (region boundary, delta, kind, width) combination for fixed layouts. Non-trivial = effective address within 9 bytes of a region boundary, or wrapped; distinct by hash of layout+probe.",
-            assumptions: &["the interpreter's stack is reached through r10-relative probes (its absolute address is unknown); loads from it only have to succeed", "registered ranges never touch or partially overlap each other or the other regions (holes of 1-7 bytes between two ranges, and one range that wholly contains the others, are generated on purpose): an access inside the union of two partially overlapping ranges but inside neither is left undecided by the statement"],
+            rule: "layouts: VM struct (metadata VM, raw VM without metadata buffer, no-data VM without packet either), packet of 0-64 bytes and metadata buffer absent or 8-64 bytes, each placed start- or end-against a PROT_NONE page; 0-3 registered ranges of 1-32 bytes inside a canary-filled arena, some separated by holes of only 1-7 bytes; in a third of the layouts one more registered range covers all the others (extended by 0-3 bytes on either side) and is registered last, first, second, or with the whole order reversed; in a quarter of the layouts a registered range encloses the packet (0-15 bytes more below, 0-7 above). probes: one access instruction {ldx, st, stx, xadd, ldabs, ldind} x width {1,2,4,8} whose effective address is a region boundary (start or end of packet / metadata / each range / the stack) plus a delta in [-9,+9], or 0, 1, u64::MAX-k, a base+offset sum that wraps past 2^64, or a far address; base value and displacement are split randomly between register and 16-bit offset (imm+src for ldind); a quarter of the probes first perform a narrower access through the same register and offset; a quarter first perform an in-bounds access of the same offset and width and then redefine the base register (lddw, mov, add, stack reload, result of a helper call, ldabs); in a quarter of the layouts the metadata buffer starts 1-7 bytes after the end of the packet. Oracle (computed from the real addresses inside the child): allowed <=> all bytes inside exactly one region (and naturally aligned for xadd); allowed => Ok with the exact loaded value / exactly the stored bytes changed; refused => Err (never a panic or signal) and no byte of packet, metadata, arena or canaries changed. The thorough tier additionally enumerates every (region boundary, delta, kind, width) combination for fixed layouts. Non-trivial = effective address within 9 bytes of a region boundary, or wrapped; distinct by hash of layout+probe.",
+            assumptions: &["the interpreter's stack is reached through r10-relative probes (its absolute address is unknown); loads from it only have to succeed", "registered ranges never touch or partially overlap each other or the other regions (holes of 1-7 bytes between two ranges, one range that wholly contains the others and one that wholly contains the packet are generated on purpose): an access inside the union of two partially overlapping ranges but inside neither is left undecided by the statement"],
         },
         run: run02,
         replay: replay02,
@@ -30,7 +30,7 @@ pub fn def11() -> PropDef {
     PropDef {
         info: PropInfo {
             id: "C11",
-            rule: "the C02 probe generator restricted to the regions Cranelift knows {packet, metadata buffer, 512-byte stack} on the metadata VM (metadata buffer present or empty, packet empty or not), same boundary windows (incl. packet and metadata buffer only 1-7 bytes apart, a narrower priming access through the same register and offset, up to four in-bounds loads through the same register at other offsets - into whichever regions the 16-bit offset reaches - and, in a quarter of the probes, an in-bounds access of the same offset and width after which the base register is redefined by lddw / mov / add / a stack reload / the result of a helper call / ldabs, all in the same basic block), null, top-of-address-space and wrap-around addresses. Each probe is compiled with Cranelift and executed in its own forked child. Oracle: in bounds => the child returns the exact loaded value / the stored bytes are exactly the expected ones; out of bounds => the child is terminated by SIGILL (the trap) and no byte of packet, metadata or the surrounding canary bytes changed; a normal return, SIGSEGV/SIGBUS, or a changed byte is a violation. Non-trivial = effective address within 9 bytes of a region boundary, or wrapped; distinct by hash of layout+probe.",
+            rule: "the C02 probe generator restricted to the regions Cranelift knows {packet, metadata buffer, 512-byte stack} on the metadata VM, the raw VM and the no-data VM (metadata buffer present or empty, packet empty or not), same boundary windows (incl. packet and metadata buffer only 1-7 bytes apart, a narrower priming access through the same register and offset, up to four in-bounds loads through the same register at other offsets - into whichever regions the 16-bit offset reaches - and, in a quarter of the probes, an in-bounds access of the same offset and width after which the base register is redefined by lddw / mov / add / a stack reload / the result of a helper call / ldabs, all in the same basic block), null, top-of-address-space and wrap-around addresses. Each probe is compiled with Cranelift and executed in its own forked child. Oracle: in bounds => the child returns the exact loaded value / the stored bytes are exactly the expected ones; out of bounds => the child is terminated by SIGILL (the trap) and no byte of packet, metadata or the surrounding canary bytes changed; a normal return, SIGSEGV/SIGBUS, or a changed byte is a violation. Non-trivial = effective address within 9 bytes of a region boundary, or wrapped; distinct by hash of layout+probe.",
             assumptions: &["a Cranelift trap surfaces as SIGILL (ud2) in the child", "guard pages make an out-of-region read fault; a returned value proves that a read was performed"],
         },
         run: run11,
@@ -57,6 +57,13 @@ pub struct Layout {
     /// extends below / above them); bits 5-6: where it comes in the order of registration
     /// (last, first, everything reversed, second)
     cover: u8,
+    /// bit 0: one more registered range that encloses the packet (bits 1-4 / 5-7: bytes it extends
+    /// below / above the packet, clipped to the accessible page): regions may overlap, an access
+    /// wholly inside any one of them must be carried out
+    enclose: u8,
+    /// VM struct the probe runs on: 0 = metadata VM, 1 = raw VM (no metadata buffer), 2 = no-data VM
+    /// (neither packet nor metadata buffer); the lengths above are already adjusted to it
+    vm: u8,
 }
 
 #[derive(Clone, Copy, Debug, PartialEq, Eq)]
@@ -104,8 +111,16 @@ pub struct Probe {
 
 fn layout(with_ranges: bool) -> impl Strategy<Value = Layout> {
     let ranges = if with_ranges { prop::collection::vec((any::<u8>(), 1u8..33, prop_oneof![2 => Just(0u8), 1 => 1u8..8]), 0..4).boxed() } else { Just(vec![]).boxed() };
-    (prop_oneof![1 => Just(0u8), 5 => 1u8..65], any::<bool>(), prop_oneof![1 => Just(0u8), 3 => 8u8..65], any::<bool>(), ranges, any::<u8>(), prop_oneof![3 => Just(0u8), 1 => 1u8..8], prop_oneof![2 => Just(0u8), 1 => any::<u8>().prop_map(|x| x | 1)])
-        .prop_map(|(pkt_len, pkt_at_end, mbuff_len, mbuff_at_end, ranges, fill, mbuff_gap, cover)| Layout { pkt_len, pkt_at_end, mbuff_len, mbuff_at_end, ranges, fill, mbuff_gap, cover })
+    (prop_oneof![1 => Just(0u8), 5 => 1u8..65], any::<bool>(), prop_oneof![1 => Just(0u8), 3 => 8u8..65], any::<bool>(), ranges, any::<u8>(), prop_oneof![3 => Just(0u8), 1 => 1u8..8], prop_oneof![2 => Just(0u8), 1 => any::<u8>().prop_map(|x| x | 1)], prop_oneof![4 => Just(0u8), 2 => Just(1u8), 1 => Just(2u8)], prop_oneof![3 => Just(0u8), 1 => any::<u8>().prop_map(|x| x | 1)])
+        .prop_map(move |(pkt_len, pkt_at_end, mbuff_len, mbuff_at_end, ranges, fill, mbuff_gap, cover, vm, enclose)| {
+            let (pkt_len, mbuff_len) = match vm {
+                0 => (pkt_len, mbuff_len),
+                1 => (pkt_len, 0),
+                _ => (0, 0),
+            };
+            let enclose = if with_ranges && pkt_len > 0 { enclose } else { 0 };
+            Layout { pkt_len, pkt_at_end, mbuff_len, mbuff_at_end, ranges, fill, mbuff_gap, cover, vm, enclose }
+        })
 }
 
 fn probe(nregions: u8, cranelift: bool) -> impl Strategy<Value = Probe> {
@@ -126,7 +141,7 @@ fn probe(nregions: u8, cranelift: bool) -> impl Strategy<Value = Probe> {
 
 pub fn case_strategy(with_ranges: bool, cranelift: bool) -> impl Strategy<Value = (Layout, Probe)> {
     layout(with_ranges).prop_flat_map(move |l| {
-        let n = 2 + l.ranges.len() as u8 + (l.cover & 1 != 0 && !l.ranges.is_empty()) as u8;
+        let n = 2 + l.ranges.len() as u8 + (l.cover & 1 != 0 && !l.ranges.is_empty()) as u8 + (l.enclose & 1 != 0 && l.pkt_len > 0) as u8;
         (Just(l), probe(n, cranelift))
     })
 }
@@ -199,6 +214,12 @@ impl Mem {
         if l.cover & 1 != 0 && regs.len() > 2 {
             let lo = regs[2..].iter().map(|r| r.0).min().unwrap() - ((l.cover >> 1) & 3) as u64;
             let hi = regs[2..].iter().map(|r| r.0 + r.1).max().unwrap() + ((l.cover >> 3) & 3) as u64;
+            regs.push((lo, hi - lo));
+        }
+        if l.enclose & 1 != 0 && l.pkt_len > 0 {
+            let (ps, pl) = regs[0];
+            let lo = ps.saturating_sub(((l.enclose >> 1) & 15) as u64).max(self.pkt.data_start() as u64);
+            let hi = (ps + pl + ((l.enclose >> 5) & 7) as u64).min(self.pkt.data_start() as u64 + PAGE as u64);
             regs.push((lo, hi - lo));
         }
         let pkt0 = ((regs[0].0.wrapping_sub(self.pkt.data_start() as u64)) as u8).wrapping_mul(31).wrapping_add(l.fill).wrapping_add(97) | 1;
@@ -441,6 +462,12 @@ unsafe fn child_probe(mem: &Mem, l: &Layout, p: &Probe, eng: Eng) {
     let regs = mem.regions(l);
     // base of ldabs/ldind: the packet pointer; Cranelift is handed a null pointer for an empty packet
     let ld_base = if eng == Eng::Cranelift && l.pkt_len == 0 { 0 } else { regs.regs[0].0 };
+    // the no-data VM hands the interpreter an empty slice of its own: the base of packet-relative
+    // loads is not an address this harness knows
+    if l.vm % 3 == 2 && matches!(p.kind, Kind2::LdAbs | Kind2::LdInd) {
+        sh.status = ST_SKIP;
+        return;
+    }
     let Some(b) = build(p, &regs, ld_base) else {
         sh.status = ST_SKIP;
         return;
@@ -478,7 +505,12 @@ unsafe fn child_probe(mem: &Mem, l: &Layout, p: &Probe, eng: Eng) {
     let prog: &'static [u8] = std::mem::transmute::<&[u8], &'static [u8]>(&b.prog[..]);
     let pkt: &'static mut [u8] = std::slice::from_raw_parts_mut(regs.regs[0].0 as *mut u8, l.pkt_len as usize);
     let mb: &'static mut [u8] = if l.mbuff_len == 0 { &mut [] } else { std::slice::from_raw_parts_mut(regs.regs[1].0 as *mut u8, l.mbuff_len as usize) };
-    let mut vm = match rbpf::EbpfVmMbuff::new(Some(prog)) {
+    let kind = match l.vm % 3 {
+        0 => crate::runner::VmKind::Mbuff { data_off: 0, end_off: 8 },
+        1 => crate::runner::VmKind::Raw,
+        _ => crate::runner::VmKind::NoData,
+    };
+    let mut vm = match crate::vmx::AnyVm::new(kind, Some(prog)) {
         Ok(vm) => vm,
         Err(e) => {
             set_fail(sh, &format!("probe program rejected by the verifier: {e}"));
@@ -487,6 +519,9 @@ unsafe fn child_probe(mem: &Mem, l: &Layout, p: &Probe, eng: Eng) {
     };
     vm.register_helper(IDENT_ID, ident).expect("register_helper");
     let mut to_register: Vec<(u64, u64)> = regs.regs[2..].to_vec();
+    // the range enclosing the packet (if any) is the last region: set it aside while the order of
+    // the others is permuted
+    let enclosing = if l.enclose & 1 != 0 && l.pkt_len > 0 { to_register.pop() } else { None };
     if l.cover & 1 != 0 && to_register.len() > 1 {
         // the covering range is the last of the list; registration order is part of the input
         match (l.cover >> 5) & 3 {
@@ -497,6 +532,13 @@ unsafe fn child_probe(mem: &Mem, l: &Layout, p: &Probe, eng: Eng) {
                 let c = to_register.pop().unwrap();
                 to_register.insert(1, c);
             }
+        }
+    }
+    if let Some(e) = enclosing {
+        if l.enclose & 0x10 != 0 {
+            to_register.insert(0, e);
+        } else {
+            to_register.push(e);
         }
     }
     for (s, len) in &to_register {
@@ -547,7 +589,10 @@ unsafe fn child_probe(mem: &Mem, l: &Layout, p: &Probe, eng: Eng) {
         Eng::Interp => {
             sh.stage = 3;
             rbpf::verif_hooks::set_insn_budget(1000);
-            let r = catch(std::panic::AssertUnwindSafe(|| vm.execute_program(pkt, mb)));
+            let r = catch(std::panic::AssertUnwindSafe(move || {
+                let (p, m) = (pkt, mb);
+                vm.exec(crate::runner::Engine::Interp, p, m)
+            }));
             sh.stage = 4;
             let after = mem.snapshot();
             match r {
@@ -583,7 +628,7 @@ unsafe fn child_probe(mem: &Mem, l: &Layout, p: &Probe, eng: Eng) {
             }
             // the parent needs the expected image if we die in the trap: publish what it needs
             sh.stage = 3;
-            let v = vm.execute_program_cranelift(pkt, mb);
+            let v = vm.exec(crate::runner::Engine::Cranelift, pkt, mb);
             sh.stage = 4;
             let after = mem.snapshot();
             match v {
@@ -719,7 +764,7 @@ extern "C" fn on_trap(_sig: i32, _info: *mut libc::siginfo_t, _ctx: *mut libc::c
 
 fn case_json(l: &Layout, p: &Probe) -> Value {
     json!({
-        "layout": {"pkt_len": l.pkt_len, "pkt_at_end": l.pkt_at_end, "mbuff_len": l.mbuff_len, "mbuff_at_end": l.mbuff_at_end, "ranges": l.ranges, "fill": l.fill, "mbuff_gap": l.mbuff_gap, "cover": l.cover},
+        "layout": {"pkt_len": l.pkt_len, "pkt_at_end": l.pkt_at_end, "mbuff_len": l.mbuff_len, "mbuff_at_end": l.mbuff_at_end, "ranges": l.ranges, "fill": l.fill, "mbuff_gap": l.mbuff_gap, "cover": l.cover, "vm": l.vm, "enclose": l.enclose},
         "probe": {
             "kind": format!("{:?}", p.kind), "width": p.width, "split": p.split, "val": p.val.to_string(), "prime": p.prime, "rebase": p.rebase, "warm": p.warm.iter().map(|(a, b)| json!([a, b])).collect::<Vec<_>>(),
             "target": match &p.target {
@@ -743,6 +788,8 @@ fn case_from_json(v: &Value) -> Option<(Layout, Probe)> {
         fill: lj["fill"].as_u64()? as u8,
         mbuff_gap: lj["mbuff_gap"].as_u64().unwrap_or(0) as u8,
         cover: lj["cover"].as_u64().unwrap_or(0) as u8,
+        vm: lj["vm"].as_u64().unwrap_or(0) as u8,
+        enclose: lj["enclose"].as_u64().unwrap_or(0) as u8,
     };
     let pj = &v["probe"];
     let kind = match pj["kind"].as_str()? {
@@ -773,7 +820,7 @@ fn account(st: &mut Stats, l: &Layout, p: &Probe, allowed: bool, near: bool, v: 
         return;
     }
     let region = match &p.target {
-        Target::Edge { region, .. } => match *region as usize % (2 + l.ranges.len() + (l.cover & 1 != 0 && !l.ranges.is_empty()) as usize) {
+        Target::Edge { region, .. } => match *region as usize % (2 + l.ranges.len() + (l.cover & 1 != 0 && !l.ranges.is_empty()) as usize + (l.enclose & 1 != 0 && l.pkt_len > 0) as usize) {
             0 => {
                 if l.pkt_len == 0 {
                     "empty-packet"
@@ -796,6 +843,10 @@ fn account(st: &mut Stats, l: &Layout, p: &Probe, allowed: bool, near: bool, v: 
     };
     st.class(&format!("{region}:{}", if allowed { "allowed" } else { "refused" }));
     st.class(&format!("{:?}/{}", p.kind, p.width));
+    st.class(["vm:metadata", "vm:raw", "vm:no-data"][l.vm as usize % 3]);
+    if l.enclose & 1 != 0 && l.pkt_len > 0 {
+        st.class(if allowed { "registered-range-encloses-packet:allowed" } else { "registered-range-encloses-packet:refused" });
+    }
     if l.cover & 1 != 0 && l.ranges.len() >= 2 {
         st.class(&format!("covering-range-over->=2-ranges:registered-{}:{}", ["last", "first", "in-reverse", "second"][((l.cover >> 5) & 3) as usize], if allowed { "allowed" } else { "refused" }));
     }
@@ -831,10 +882,10 @@ fn drive(ctx: &Ctx, eng: Eng, quick: u64, thorough: u64) {
     if ctx.tier == Tier::Thorough {
         // exhaustive window: every (region boundary, delta, kind, width) for fixed layouts
         let layouts = [
-            Layout { pkt_len: 17, pkt_at_end: true, mbuff_len: 24, mbuff_at_end: false, ranges: vec![(3, 5, 0), (200, 32, 3)], fill: 7, mbuff_gap: 0, cover: 0 },
-            Layout { pkt_len: 0, pkt_at_end: true, mbuff_len: 0, mbuff_at_end: false, ranges: vec![(9, 1, 0)], fill: 9, mbuff_gap: 0, cover: 0 },
-            Layout { pkt_len: 64, pkt_at_end: false, mbuff_len: 8, mbuff_at_end: true, ranges: vec![], fill: 1, mbuff_gap: 3, cover: 0 },
-            Layout { pkt_len: 1, pkt_at_end: true, mbuff_len: 64, mbuff_at_end: true, ranges: vec![(77, 8, 0), (1, 9, 1), (130, 16, 7)], fill: 3, mbuff_gap: 1, cover: 0x2b },
+            Layout { pkt_len: 17, pkt_at_end: true, mbuff_len: 24, mbuff_at_end: false, ranges: vec![(3, 5, 0), (200, 32, 3)], fill: 7, mbuff_gap: 0, cover: 0, vm: 0, enclose: 0 },
+            Layout { pkt_len: 0, pkt_at_end: true, mbuff_len: 0, mbuff_at_end: false, ranges: vec![(9, 1, 0)], fill: 9, mbuff_gap: 0, cover: 0, vm: 0, enclose: 0 },
+            Layout { pkt_len: 64, pkt_at_end: false, mbuff_len: 8, mbuff_at_end: true, ranges: vec![], fill: 1, mbuff_gap: 3, cover: 0, vm: 0, enclose: 0 },
+            Layout { pkt_len: 1, pkt_at_end: true, mbuff_len: 64, mbuff_at_end: true, ranges: vec![(77, 8, 0), (1, 9, 1), (130, 16, 7)], fill: 3, mbuff_gap: 1, cover: 0x2b, vm: 0, enclose: 0x2d },
         ];
         let kinds = [Kind2::Ldx, Kind2::St, Kind2::Stx, Kind2::Xadd, Kind2::LdAbs, Kind2::LdInd];
         let mut n = 0u64;
